@@ -57,6 +57,8 @@ def plan(tier, seed):
 
 
 def run(check, pool, Task):
+    from . import validate
+    validate.apply(check, ['hilbert'])
     Q = plan(check.tier, check.seed)
     cap = 900 if check.tier == 'thorough' else 300
     check.bounds.update({
